@@ -557,7 +557,7 @@ def der_encode_sig(r: int, s: int) -> bytes:
     s_number_of_bytes = (s.bit_length() + 7) // 8
     s_bytes = s.to_bytes(s_number_of_bytes, "big")
     if s_bytes[0] >= 0x80:
-        s_bytes += b"\x00" + s_bytes
+        s_bytes = b"\x00" + s_bytes
 
     signature_asn1_data_struct = [
         [
